@@ -136,7 +136,7 @@ def keys(level, cont):
     return [i.find('itemID').text for i in cont.findall('item')]
 
 
-def carried(level, new_ids, timing='7'):
+def carried(level, new_ids, timing='7', slug=True):
     """timing: a duration text, 'blank' (a <StoryDuration/> tag without text), 'odd' (01:30), or None"""
     if level == 'story':
         def tb():
@@ -148,8 +148,8 @@ def carried(level, new_ids, timing='7'):
             if timing == 'odd':
                 return B.timing_block(dur=None, media_time='01:30')
             return B.timing_block(dur=timing)
-        return [mk_story(n, item_ids=('ni',), lead=2, timing=tb()) for n in new_ids]
-    return [B.item(n, slug='new') for n in new_ids]
+        return [mk_story(n, item_ids=('ni',), lead=2 if slug else 1, timing=tb()) for n in new_ids]
+    return [B.item(n, slug='new' if slug else None) for n in new_ids]
 
 
 def _blank_duration():
@@ -162,7 +162,7 @@ def build_message(P, ids, tgt, srcs, new_ids, addr=None):
     """tgt: reference value; srcs: list of reference values; new_ids: carried IDs."""
     op = P['op']
     level = OPS[op][0]
-    new = carried(level, new_ids, timing=P.get('carried_timing', '7'))
+    new = carried(level, new_ids, timing=P.get('carried_timing', '7'), slug=P.get('carried_slug', True))
     if op == 'roStoryAppend':
         return M.story_append(new)
     if op == 'roStoryInsert':
